@@ -29,6 +29,8 @@ import AutosarVerif.Lemmas.Compat
 import AutosarVerif.Model.Load
 import AutosarVerif.Lemmas.StepFrame
 import AutosarVerif.Lemmas.StepX
+import AutosarVerif.Lemmas.MoveOp
+import AutosarVerif.Lemmas.StepY
 
 namespace AV.C11
 open AV.W
@@ -100,5 +102,20 @@ theorem C11_every_operation_of_the_larger_alphabet (rootAttrs : List (Nat × CDv
   ⟨applyOpX_err_frame S V rootAttrs w op h, applyOpX_answer_err S V rootAttrs w op h⟩
 theorem C11_set_reference_target (w : World) (x t : Nat) :
     (opSetRef S V w x t).2 = .err → (opSetRef S V w x t).1 = w := opSetRef_err_frame S V w x t
+
+
+/-! ### added in the third session: statements proved in the lemma files, restated here by name
+(`type_of%` keeps the statement identical to the lemma; the signature is quoted in the comment) -/
+
+/-- `move_element_here` inside one model: a refusal leaves the world unchanged in every world with an exact index (the partial failure `NameFail` - identifiable by type but without item name - cannot occur there: `C11_move_name_failure_unreachable`)
+`theorem opMove_err_frame_winv (vOk : Nat) (w : World) (hw : WInv S vOk w) (p x : Nat) (pos? : Option Nat) (h : (opMove S V w p x pos?).2 = .err) : (opMove S V w p x pos?).1 = w` -/
+theorem C11_move : type_of% @AV.W.opMove_err_frame_winv := @AV.W.opMove_err_frame_winv
+
+/-- `theorem nameFail_impossible (vOk : Nat) (w : World) (hw : WInv S vOk w) (p x : Nat) : ¬ NameFail S w p x` -/
+theorem C11_move_name_failure_unreachable : type_of% @AV.W.nameFail_impossible := @AV.W.nameFail_impossible
+
+/-- a refusal of ANY operation of `OpY` (incl. move and copy) in a reachable state leaves the world unchanged
+`theorem reachY_err_frame (hH : IdxHyp S V vOk) (hR : RefWF S) (hv32 : vOk &&& 0xFFFFFFFF = vOk) {w : World} (hr : ReachY S V vOk rootAttrs w) (op : OpY) (h : opYRefuses S V w op) : (applyOpY S V rootAttrs w op).1 = w` -/
+theorem C11_refusals_in_reachable_states_incl_move_and_copy : type_of% @AV.W.reachY_err_frame := @AV.W.reachY_err_frame
 
 end AV.C11
